@@ -26,6 +26,8 @@ PROP = 'C18'
 PLACEMENT = [
     ('two_node', dict(T=3), None),
     ('two_node_discounted_daily', dict(T=3, freq='d', wacc=True), None),
+    ('two_node_names_not_in_alphabetical_order', dict(T=3, node_names=('power', 'gas')), None),
+    ('two_node_names_reversed_split', dict(T=4, freq='12h', node_names=('N2', 'N1')), 'd'),
     ('two_node_window_gap', dict(T=4, win_t=(1, 3)), None),
     ('windows_gap_two_nodes', dict(T=5, wins=((0, 2), (1, 2), (3, 5), (4, 5)), two_nodes=True), None),
     ('multicommodity', dict(T=3), None),
@@ -36,7 +38,7 @@ PLACEMENT = [
     ('split_first_asset_starts_inside_interval', dict(T=4, wins=((1, 4), (0, 4), (0, 3)), two_nodes=True), '2h'),
     ('split_first_asset_late_second_interval', dict(T=6, wins=((4, 6), (0, 6)), two_nodes=True), '3h'),
 ]
-SHAPE_OF = dict(two_node_discounted_daily='two_node', split_first_asset_starts_inside_interval='windows', split_first_asset_late_second_interval='windows', two_node_window_gap='two_node', windows_gap_two_nodes='windows', split_two_node='two_node', split_unequal_intervals='two_node',
+SHAPE_OF = dict(two_node_names_not_in_alphabetical_order='two_node', two_node_names_reversed_split='two_node', two_node_discounted_daily='two_node', split_first_asset_starts_inside_interval='windows', split_first_asset_late_second_interval='windows', two_node_window_gap='two_node', windows_gap_two_nodes='windows', split_two_node='two_node', split_unequal_intervals='two_node',
                 late_second_node='late_node')
 INSTANCES = ['two_node', 'contract_storage', 'multicommodity', 'late_node', 'uncoupled', 'coarse',
              'two_node@big', 'scaled@big', 'contract_storage@small', 'orderbook', 'two_node_discounted', 'ext_transport']     # @big / @small: prices of the order 1e5 / 1e-4 (other currencies / units)
@@ -68,6 +70,9 @@ def cases(tier, seed):
     out = []
     for cid, kw, split in PLACEMENT:
         out.append(('placement_' + cid, dict(kind='placement', shape=SHAPE_OF.get(cid, cid), kw=kw, split=split)))
+    # an injection is a right-hand side of the nodal balance: the nodal rows handed to the solver carry the problem's right-hand side and
+    # their duals are filed under 'N' (C03's recorder machinery, fully symbolic problems with nodal rows)
+    out.append(('nodal_right_hand_side_and_duals_reach_the_solver', dict(kind='c03', sub=dict(kind='stub', m=2, n=3, mapping='plain', ctypes=['UN', 'NN', 'SN', 'LN']))))
     reps = 3 if tier == 'thorough' else 1
     for shp in INSTANCES:
         for k in range(reps):
@@ -81,6 +86,12 @@ def n_rows(op):
 
 
 def run_case(case_id, tier, seed, kind, **kw):
+    if kind == 'c03':
+        from . import c03
+        sub = dict(kw['sub'])
+        res = c03.run_case(case_id, tier, seed, **sub)
+        res['prop'] = PROP
+        return res
     rec = lpsem.Rec(PROP, case_id)
     if kind == 'marginal':
         rec.pchecks.append(dict(extra=dict(seed=seed, shape=kw['shape'], k=kw['k'])))
@@ -239,6 +250,9 @@ SHAPE_KW = dict(two_node=dict(T=3), contract_storage=dict(T=4), multicommodity=d
 def observe(case, kwargs, env, rq):
     kw = dict(kwargs)
     kind = kw.pop('kind')
+    if kind == 'c03':
+        from . import c03
+        return c03.observe(case, dict(kw['sub']), env, rq)
     if kind == 'placement':
         D = lift.Domain(theta=env)
         sh, op, ops, y, out = placement_scenario(D, kw['shape'], kw['kw'], kw['split'], env=env)
@@ -334,6 +348,9 @@ def marginal_check(shape, k, seed):
 
 
 def judge(case, kwargs, cand, ans):
+    if kwargs.get('kind') == 'c03':
+        from . import c03
+        return c03.judge(case, dict(kwargs['sub']), cand, ans)
     info = cand.get('info', {})
     if cand.get('form') == 'crash' or 'crash' in info:
         return (True, 'raises on an in-domain input: ' + ans['error'][:200]) if 'error' in ans else (False, 'no exception')
